@@ -92,6 +92,21 @@ def holdsFrom (cfg : Cfg) : Tracker → List Obs → Bool
 /-- The whole property on an observed history (oldest first). -/
 def holds (cfg : Cfg) (obs : List Obs) : Bool := holdsFrom cfg (Tracker.init cfg) obs
 
+/-- Is transaction `r` still open at the end of the observed history?  Open = its last event is a request
+    that was admitted (not refused, not answered early, no response, no proxy error since). -/
+def lastOpen (r : Nat) : List Obs → Bool → Bool
+  | [], b => b
+  | o :: os, b => lastOpen r os (match o.ev with
+      | .req r' _ => if r' = r then o.verdict == .admitted else b
+      | .resp r' => if r' = r then false else b
+      | .err r' => if r' = r then false else b
+      | .adv _ => b)
+
+/-- The sets observed last. -/
+def lastSnap (cfg : Cfg) : Tracker → List Obs → Snap
+  | t, [] => t.snap
+  | t, o :: os => lastSnap cfg (t.next cfg o) os
+
 /-! ### Classes of known defects (decidable on configuration + observations) -/
 
 inductive FindingId | F02a | F02b | F02c
